@@ -54,6 +54,10 @@ func errorType() types.Type { return types.Universe.Lookup("error").Type() }
 func (x *Exec) freshError(fr *Frame, hint string) Val {
 	st := fr.curSt
 	ref := x.newRef(st, hint)
+	// an error produced by a dependency wraps none of this module's sentinel errors (fmt.Errorf
+	// overwrites these two entries when its format has a %w verb)
+	x.ghostSet(st, "err$wtag", ref, "0")
+	x.ghostSet(st, "err$wpay", ref, "0")
 	return Val{T: errorType(), C: []string{x.typeTagName("$dyn_error"), ref}}
 }
 
